@@ -484,6 +484,11 @@ func init() {
 		for name, nat := range kernels {
 			nat := nat
 			ext(pkg+"."+name, func(fr *frame, a []value) value {
+				if _, ok := hookFns["simd-real-wrappers"]; ok {
+					// the wrapper's real SSA runs; only the assembly kernel it calls is
+					// replaced (by its memory effect, see external.go)
+					return useRealBody{}
+				}
 				x, y := a[0].([]value), a[1].([]value)
 				if len(x) == 0 {
 					panic(targetRuntimeError{"index out of range [0] with length 0"})
